@@ -29,6 +29,7 @@ def run(ctx):
     # preemption-bounded systematic search (every schedule with <= 1 preemption, yields before and after each operation)
     searches = [(p, 1, 250 if ctx.quick else 6000, {"post_yields": True}) for p in progs[: 6 if ctx.quick else 14]]
     multi = gc.multi_part(ctx, ["C02.", "C03."])
+    cfd = gc.chanfile_delivery_part(ctx, rng, ["C02.", "C03."])
     res = gc.run_and_judge(ctx, jobs, ["C02.", "C10.callback-item", "C10.callback-missed", "C10.endmarker-before-last-item", "C08.", "C18.channel-id-handed-out-twice"], lambda evs: sum(1 for e in evs if e["ev"] in ("deq", "cb")) >= 3, None, searches=searches)
     gwrun.close_pool()
     ctx.coverage.update({
@@ -42,5 +43,6 @@ def run(ctx):
         "bounded_search": {"programs": res["bounded_searches"], "runs": res["bounded_search_runs"], "finished_exhaustively": res["bounded_searches_finished"]},
     })
     ctx.coverage["multichannel_real"] = multi
+    ctx.coverage["channel_file_delivery"] = cfd
     ctx.assumptions += gc.ASSUMPTIONS
     return "model_checking"
